@@ -22,6 +22,10 @@ import (
 )
 
 func (dec *Decoder) stringToComplex64(s string) complex64 {
+	if !saneComplexText(s) {
+		dec.decodeStringError(s, "complex64")
+		return 0
+	}
 	c, err := complexconv.ParseComplex(s, 64)
 	if err != nil {
 		dec.Error = err
@@ -29,7 +33,39 @@ func (dec *Decoder) stringToComplex64(s string) complex64 {
 	return complex64(c)
 }
 
+// saneComplexText keeps text that is no complex number away from complexconv, which
+// evaluates its argument as a constant expression in exact arithmetic: a dozen bytes like
+// 1e646456992+1e-646456992 cost it a gigabyte.
+func saneComplexText(s string) bool {
+	return len(s) <= 256 && saneExponents(s)
+}
+
+// saneExponents reports whether no exponent in s has more than four digits.
+func saneExponents(s string) bool {
+	for i := 0; i < len(s); i++ {
+		if s[i] == 'e' || s[i] == 'E' || s[i] == 'p' || s[i] == 'P' {
+			j := i + 1
+			if j < len(s) && (s[j] == '+' || s[j] == '-') {
+				j++
+			}
+			digits := 0
+			for j < len(s) && s[j] >= '0' && s[j] <= '9' {
+				j++
+				digits++
+			}
+			if digits > 4 {
+				return false
+			}
+		}
+	}
+	return true
+}
+
 func (dec *Decoder) stringToComplex128(s string) complex128 {
+	if !saneComplexText(s) {
+		dec.decodeStringError(s, "complex128")
+		return 0
+	}
 	c, err := complexconv.ParseComplex(s, 128)
 	if err != nil {
 		dec.Error = err
